@@ -76,11 +76,12 @@ const (
 	cprDetachedDelivery
 	cprTwoClosers
 	cprLockBlocked
+	cprKeyWait
 	nCProbes
 )
 
 var cProbeNames = []string{"context_switch_at_internal_yield", "callback_reentered_reassembler", "close_invoked_while_other_call_in_flight",
-	"message_left_buffered_push_returned_after_close", "event_delivered_after_close_returned", "two_or_more_close_calls", "task_seen_blocked_on_lock"}
+	"message_left_buffered_push_returned_after_close", "event_delivered_after_close_returned", "two_or_more_close_calls", "task_seen_blocked_on_real_lock", "task_parked_waiting_for_modelled_lock"}
 
 var cFaultNames = []string{"stalled_task", "clock_step", "reentrant_callback", "already_expired_timeout", "concurrent_close", "statement_level_preemption"}
 
@@ -374,6 +375,7 @@ func ExecCPlan(p *CPlan, trace bool) *core.Result {
 	res.Steps = sc.Steps
 	res.SimNs = int64(time.Since(start))
 	res.Probes[cprLockBlocked] += sc.LockBlocks
+	res.Probes[cprKeyWait] += sc.KeyWaits
 	if p.Auto != 0 {
 		res.Faults[cfAuto]++
 	}
